@@ -38,6 +38,19 @@ def json_conformant_text(r):
     return gens.CR.join(recs)
 
 
+def headerless_conformant_text(r):
+    """a further message of a transfer that starts with a record type no schema set maps (an E1394 scientific record,
+    a vendor-specific letter, an empty line) followed by mapped records: the unmapped records are skipped, the others
+    are not"""
+    first = r.choice([b"S|1|x|y", b"Z|9", b"", b"X", b"s|1"])
+    recs = [first]
+    for i in range(r.randrange(1, 3)):
+        recs.append(b"C|%d|I|" % (i + 1) + bytes(x for x in gens.text_bytes(r, r.randrange(0, 12), high_bias=0.3)
+                                                 if x not in b"|^\\&") + b"|G")
+    recs.append(b"L|1|N")
+    return gens.CR.join(recs)
+
+
 def sessions(r, conformant=False):
     evs = []
     meta = {"sessions": 0, "multi": 0, "high": 0, "endings": []}
@@ -46,6 +59,9 @@ def sessions(r, conformant=False):
         evs.append(("d", gens.ENQ))
         ending = r.choice(["eot", "eot", "eot", "eot-empty", "abandoned", "lost", "timeout", "eot-after-bad"])
         n_msgs = 0 if ending == "eot-empty" else r.choice([1, 1, 2, 3])
+        noisy_transfer = r.random() < 0.06
+        if noisy_transfer and n_msgs:
+            n_msgs = r.choice([4, 8, 12])
         if ending in ("abandoned", "eot-after-bad", "lost", "timeout") and r.random() < 0.4:
             n_msgs = 0
         for mi_ in range(n_msgs):
@@ -55,6 +71,8 @@ def sessions(r, conformant=False):
                 # every transfer is rendered with the schemas its own first header selects
                 from harness.props import C14
                 text = C14.hub_message(r)[0]
+            elif conformant and mi_ > 0 and r.random() < 0.3:
+                text = headerless_conformant_text(r)
             if text is None and r.random() < 0.08:
                 text = gens.record_text(r, big=True)          # intermediate frames of more than 240 text bytes
                 meta["big"] = meta.get("big", 0) + 1
@@ -66,8 +84,9 @@ def sessions(r, conformant=False):
             # E1381 retransmission: a frame of the run (first, middle or last) arrives damaged, is NAKed, and only that
             # frame is sent again
             bad_at = r.randrange(len(frames)) if r.random() < 0.3 else None
+            noisy = noisy_transfer            # a bad line: every frame of the transfer arrives damaged first
             for i, f in enumerate(frames):
-                if i == bad_at:
+                if i == bad_at or noisy:
                     damaged = gens.corrupt(r, f)[0]
                     for _ in range(r.choice([1, 1, 2])):
                         # (the very same damaged bytes may arrive more than once)
@@ -121,6 +140,17 @@ def run(ctx):
             hs.append((fmt, evs + gens.PROBE, meta))
         run_histories_fmt(s, hs, ctx)
         if conformant:
+            # what was delivered as json lists the records of its own frames under the schemas its header selects
+            # (read from the contract tables, independently of the Wrapper)
+            from harness.props import C14
+            for fmt, evs, meta in hs[:300]:
+                if fmt in ("json", "@default"):
+                    obs_, _c = recv.run_impl(fmt if fmt != "@default" else "json", evs, use_default_fmt=(fmt == "@default"))
+                    docs = [it for ob in obs_ for it in ob["delivered"] if isinstance(it, bytes)]
+                    why = C14.json_files_follow_their_schemas(docs) if docs else None
+                    if why:
+                        s.fail({"format": fmt, "events": [gens.ev_hex(x) for x in evs]}, why, "%s/json-records" % s.name)
+                        break
             # schema-conformant sessions must render in the json format
             for fmt, evs, meta in hs[:400]:
                 if fmt in ("json", "@default"):
